@@ -6,6 +6,9 @@ package notifier
 // file shipped in config/ and a generated group status; the template is parsed exactly as
 // Coordinator.Configure does and rendered with executeTemplate, as the http and email notifiers do.
 // Output per case: "OK json=<0|1>" (rendered; json.Valid of the bytes) or "ERR".
+// A second kind of case, "offer <hex template text>", executes a one-action template written against the documented
+// data fields / helper functions (parsed with helperFunctionMap, executed with executeTemplate on a fixed status) and
+// prints "OK <hex of the output>", "PARSE-ERR" or "ERR".
 
 import (
 	"bufio"
@@ -163,6 +166,36 @@ func vtRender(t *vtTokens) (res string) {
 	return "OK json=0"
 }
 
+// vtOffer: does the data handed to templates offer this field / helper?  The status has one listed partition, which is
+// also the max-lag partition.
+func vtOffer(t *vtTokens) (res string) {
+	defer func() {
+		if r := recover(); r != nil {
+			res = "PANIC"
+		}
+	}()
+	text := t.str()
+	tmpl, err := template.New("offer").Funcs(helperFunctionMap).Parse(text)
+	if err != nil {
+		return "PARSE-ERR"
+	}
+	lag := &protocol.Lag{Value: 25}
+	part := &protocol.PartitionStatus{Topic: "topic", Partition: 3, Owner: "owner", ClientID: "client", Status: protocol.StatusStall,
+		Start: &protocol.ConsumerOffset{Offset: 10, Order: 1, Timestamp: 1500000000000, ObservedTimestamp: 1500000000001, Lag: lag},
+		End:   &protocol.ConsumerOffset{Offset: 10, Order: 2, Timestamp: 1500000060000, ObservedTimestamp: 1500000060001, Lag: lag},
+		CurrentLag: 25, Complete: 1}
+	status := &protocol.ConsumerGroupStatus{Cluster: "cluster", Group: "group", Status: protocol.StatusError, Complete: 1,
+		Partitions: []*protocol.PartitionStatus{part}, TotalPartitions: 1, Maxlag: part, TotalLag: 25}
+	out, err := executeTemplate(tmpl, map[string]string{"key": "value"}, status, "event-id", time.Unix(1500000000, 0).UTC())
+	if err != nil {
+		if os.Getenv("VERIF_TMPL_ERRORS") != "" {
+			return "ERR " + strings.ReplaceAll(err.Error(), "\n", " ")
+		}
+		return "ERR"
+	}
+	return "OK x" + hex.EncodeToString(out.Bytes())
+}
+
 func TestVerifProbeTmpl(t *testing.T) {
 	casesPath, outPath := os.Getenv("VERIF_CASES"), os.Getenv("VERIF_OUT")
 	if casesPath == "" || outPath == "" {
@@ -191,6 +224,8 @@ func TestVerifProbeTmpl(t *testing.T) {
 		switch tk.next() {
 		case "render":
 			fmt.Fprintln(w, vtRender(tk))
+		case "offer":
+			fmt.Fprintln(w, vtOffer(tk))
 		default:
 			t.Fatalf("unknown case kind in %q", line)
 		}
